@@ -1,5 +1,6 @@
 from __future__ import annotations
 
+import io
 import json
 from datetime import datetime, timedelta, timezone
 from importlib.util import find_spec
@@ -71,7 +72,12 @@ class AvroWriter(AbstractWriter):
         if self.desc != r._desc:
             raise Exception("Mixed record types")
 
-        self.writer.write(r._packdict())
+        data = r._packdict()
+        # Encode once into a scratch buffer first: fastavro encodes field by field straight into its block
+        # buffer, so a record that is refused halfway would leave its first fields behind and shift every
+        # record accepted afterwards.
+        fastavro.schemaless_writer(io.BytesIO(), self.parsed_schema, data)
+        self.writer.write(data)
 
     def flush(self):
         if self.writer:
